@@ -58,5 +58,34 @@ def run(repo, driver, tier, faildir, nproc, corpus_dir):
                 rp = os.path.join(faildir, "C04_table_%d.replay" % len(viol))
                 open(rp, "w").write("# property=C04 kind=spec\n# %s\nnew %d %s\n" % (bad, dfrc, fen) + "".join("perft %d\n" % d for d in depths))
                 viol.append({"kind": "spec", "details": "%s  [%s]" % (bad, fen), "replay": rp})
+    # ---- wide-tree probes: totals beyond 2^31 (quick) and 2^32 (thorough) — a count type that is too narrow, or any
+    # other fault that only shows on huge totals, breaks "perft(d) = sum over the legal moves m of perft(d-1) after m"
+    # (theorem C04_recurrence for the model; the terms are each far below 2^31).  One call is compared with the split.
+    probes = [(0, "r2qk2r/1pp1qpp1/2npbn2/2b1p3/8/8/QQQQQQQQ/Q3K3 w kq - 0 1", 5)]
+    if tier != "quick":
+        probes.append((0, "r3k2r/p1ppqpb1/bn2pnp1/3PN3/1p2P3/2N2Q1p/PPPBBPPP/R3K2R w KQkq - 0 1", 6))   # 8 031 647 685 > 2^32
+    probe_nodes = 0
+    for dfrc, fen, depth in probes:
+        p = subprocess.Popen([driver], stdin=subprocess.PIPE, stdout=subprocess.PIPE, text=True)
+        out, _ = p.communicate("new %d %s\nmoves\nquit\n" % (dfrc, fen))
+        ls = out.strip().split("\n")
+        toks = ls[1].split() if len(ls) > 1 and ls[1].startswith("M ") else []
+        roots = toks[2:2 + int(toks[1])] if len(toks) > 1 else []      # "M <n> <n encoded moves> ; captures ; ..."
+        def whole():
+            l = run_one(driver, dfrc, fen, [depth]); return int(l[3].split()[1]) if len(l) > 3 else -1
+        def part(enc):
+            q = subprocess.Popen([driver], stdin=subprocess.PIPE, stdout=subprocess.PIPE, text=True)
+            o, _ = q.communicate("new %d %s\nmake %s\nperft %d\nquit\n" % (dfrc, fen, enc, depth - 1))
+            l = o.strip().split("\n"); return int(l[2].split()[1]) if len(l) > 2 else -1
+        with ThreadPoolExecutor(max_workers=nproc) as ex:
+            fw = ex.submit(whole); parts = list(ex.map(part, roots)); total = fw.result()
+        evals += 1 + len(parts); distinct += 1; probe_nodes += max(total, 0)
+        bad = None
+        if not roots or total < 0 or min(parts) < 0: bad = "driver died on the wide-tree probe"
+        elif total != sum(parts): bad = "perft(%d) = %d but the sum of perft(%d) over the %d legal moves is %d" % (depth, total, depth - 1, len(parts), sum(parts))
+        if bad:
+            rp = os.path.join(faildir, "C04_wide_%d.replay" % len(viol))
+            open(rp, "w").write("# property=C04 kind=spec\n# %s\nnew %d %s\nperft %d\n" % (bad, dfrc, fen, depth) + "".join("new %d %s\nmake %s\nperft %d\n" % (dfrc, fen, e, depth - 1) for e in roots))
+            viol.append({"kind": "spec", "details": "%s  [%s]" % (bad, fen), "replay": rp})
     return {"evaluations": evals, "distinct_nontrivial": distinct, "perft_table_nodes": nodes, "tables_drifted_from_pinned_copy": bool(drift),
-            "table_positions": len(jobs)}, viol
+            "table_positions": len(jobs), "wide_tree_probe_nodes": probe_nodes}, viol
